@@ -93,6 +93,8 @@ class HelperInfo:
         self.K = None  # callable(args)->Rat
         self.guarded = False
         self.fi = None
+        self.first_order = None  # guarded alternative agrees with the main branch to first order at the singular point
+        self.eps = None
 
 
 def _analyse_helper(repo, col, fi):
@@ -186,6 +188,7 @@ def _analyse_helper(repo, col, fi):
         first = d_alt.eq(d_main)
     except Und:
         first = None
+    info.first_order, info.eps = first, eps
     if first is True:
         col.ok("R-C03-singular", fi, f"{fi.name}: first-order term on |u| < {float(eps)}",
                "alternative is the first-order Taylor polynomial of the main branch", node=fi.node)
